@@ -603,10 +603,22 @@ def _search(ctx: Ctx, model, base, msg):
     av = ast.unparse(loops[0].ast.target)
     # code / vendor variables = path[0]
     cv = None
+    # the element matched at this level: path[0] with the rest of the path handed down, or
+    # path[depth] with a depth parameter that starts at 0 and is handed down incremented
+    dparams = [a.arg for a, d in zip(tr.node.args.args[len(tr.node.args.args) - len(tr.node.args.defaults):],
+                                     tr.node.args.defaults) if isinstance(d, ast.Constant) and d.value == 0
+               and type(d.value) is int]
+    depth_p = None
     for n in ast.walk(tr.node):
-        if isinstance(n, ast.Assign) and isinstance(n.targets[0], ast.Tuple) \
-                and ast.unparse(n.value).replace(" ", "") == f"{path_p}[0]":
-            cv = [e.id for e in n.targets[0].elts]
+        if isinstance(n, ast.Assign) and isinstance(n.targets[0], ast.Tuple):
+            v_ = ast.unparse(n.value).replace(" ", "")
+            if v_ == f"{path_p}[0]":
+                cv = [e.id for e in n.targets[0].elts]
+            for dp in dparams:
+                if v_ == f"{path_p}[{dp}]" and not any(
+                        isinstance(x, ast.Name) and x.id == dp and isinstance(x.ctx, ast.Store) for x in ast.walk(tr.node)):
+                    cv = [e.id for e in n.targets[0].elts]
+                    depth_p = dp
     if not cv or len(cv) != 2:
         ctx.fail(cons, tr.loc(), "the first path element is not split into (code, vendor)")
         return
@@ -634,7 +646,8 @@ def _search(ctx: Ctx, model, base, msg):
         args = [A.resolve_local_chain(tr.node, a).replace(" ", "") for a in c.args]
         facts = must_facts(g, at, rec[0])
         grouped = any(f_[0].replace(" ", "") == f"isinstance({av},AvpGrouped)" and f_[3] for f_ in facts)
-        if args != [f"{av}.value", f"{path_p}[1:]"] or not grouped:
+        want_args = [f"{av}.value", f"{path_p}[1:]"] if depth_p is None else [f"{av}.value", path_p, f"{depth_p}+1"]
+        if args != want_args or not grouped:
             ctx.fail(cons, g.loc(rec[0]), "the search does not descend into the children of grouped "
                      "AVPs only, with the remaining path")
         if not (isinstance(rec[0].ast, ast.AugAssign) or "extend" in rec[0].text()):
@@ -680,9 +693,31 @@ def _search(ctx: Ctx, model, base, msg):
                        and "__find_cache" in n.text(300) and n is not None
                        and not (n.kind == "stmt" and isinstance(n.ast, ast.Assign)
                                 and A.dotted(n.ast.targets[0]) == "self.__find_cache")]
+        par_fa = A.parents(fa.node)
+
+        def _alias_of_checked(prm):
+            """*prm* is a second name of another optional input: read only under `prm is not None`,
+            where it is copied into that input (`q = prm`) - the cache then answers to q alone."""
+            loads_ = [x for x in ast.walk(fa.node) if isinstance(x, ast.Name) and x.id == prm and isinstance(x.ctx, ast.Load)]
+            tgt = set()
+            for x in loads_:
+                cur, ok_ = x, False
+                while cur in par_fa:
+                    p_ = par_fa[cur]
+                    if isinstance(p_, ast.If) and ast.unparse(p_.test).replace(" ", "") == f"{prm}isnotNone":
+                        ok_ = True
+                        if cur is not p_.test:
+                            for st_ in ast.walk(p_):
+                                if isinstance(st_, ast.Assign) and isinstance(st_.value, ast.Name) and st_.value.id == prm:
+                                    tgt |= {t_.id for t_ in st_.targets if isinstance(t_, ast.Name)}
+                        break
+                    cur = p_
+                if not ok_:
+                    return False
+            return bool(tgt) and tgt <= set(others) - {prm}
         for prm in others:
             used = any(isinstance(x, ast.Name) and x.id == prm for x in ast.walk(fa.node))
-            if not used or prm in ast.unparse(keydef[0].value):
+            if not used or prm in ast.unparse(keydef[0].value) or _alias_of_checked(prm):
                 continue
             for cn in cache_nodes:
                 fx = must_facts(gf, atf, cn)
